@@ -3,6 +3,7 @@ From Coq Require Import NArith ZArith List Bool.
 Import ListNotations.
 From CXV Require Import Gen.TokTy Gen.ParserTables Gen.Blocks Gen.Facts Base.Regex Base.RegexThms Gen.LexRules
   Lex.PlyLoop Lex.LexThms Parse.Balanced Parse.BalancedThms Parse.BlocksSM Parse.BlocksSpec Parse.BlocksThms.
+From CXV Require Import Parse.Specs.
 Open Scope N_scope.
 
 (* the lexer never gets stuck: every code-point string yields tokens or a located error *)
@@ -58,6 +59,16 @@ Theorem stray_closer_in_value_rejected :
     value_until ty (S f) terms acc (t :: r) = ErrUnexpected (ty t).
 Proof. exact BalancedThms.stray_closer_in_value_rejected_lemma. Qed.
 
+(* specifiers where they are not allowed: a declaration kind that takes no
+   variable specifiers rejects mutable, one that takes no method specifiers
+   rejects explicit / virtual, and one that takes neither (typedefs, parameters,
+   aliases) rejects constexpr / extern / inline / static as well *)
+Theorem misplaced_specifiers_rejected : forall var_ok meth_ok m,
+  validate var_ok meth_ok m =
+    (implb (m_mutable m) var_ok) && (implb (m_explicit m || m_virtual m) meth_ok)
+    && (implb (m_constexpr m || m_extern m || m_inline m || m_static m) (var_ok || meth_ok)).
+Proof. exact validate_spec. Qed.
+
 (* a stray closing brace at the root and an access specifier outside a class
    stop the machine with an error, after which nothing is delivered *)
 Theorem stray_close_rejected :
@@ -87,6 +98,7 @@ Print Assumptions illegal_char_rejected.
 Print Assumptions hash_is_directive_or_error.
 Print Assumptions mismatch_rejected.
 Print Assumptions stray_closer_in_value_rejected.
+Print Assumptions misplaced_specifiers_rejected.
 Print Assumptions stray_close_rejected.
 Print Assumptions access_outside_class_rejected.
 Print Assumptions error_is_final.
